@@ -191,6 +191,7 @@ static RunResult run_child(Engine& eng, const Plan& plan, const Opts& opts, bool
 		Ctx ctx;
 		ctx.sh	 = g_shared;
 		ctx.opts = &opts;
+		ctx.salt = plan.hash();
 		entropy_attach_log(&ctx.log);
 		try
 		{
@@ -282,7 +283,10 @@ struct Shrinker
 	bool fails(const Plan& p)
 	{
 		execs++;
-		RunResult r = run_child(eng, p, opts, false);
+		// shrink candidates get a short leash: a candidate that hangs is simply not accepted
+		Opts quick_opts		 = opts;
+		quick_opts.timeout_s = std::min(opts.timeout_s, opts.tier == "thorough" ? 60 : 20);
+		RunResult r = run_child(eng, p, quick_opts, false);
 		return r.v.any && r.v.cls == cls;
 	}
 	Plan ddmin(Plan p)
@@ -492,7 +496,7 @@ int sim_main(int argc, char** argv, std::vector<Engine*> engines)
 	std::vector<double> metric_max(32, 0.0);
 	std::vector<uint8_t> states(MAX_STATES / 8, 0);
 	std::map<std::string, int> shrunk_per_class;
-	uint64_t total_ops = 0, total_events = 0, det_reruns = 0, det_mismatch = 0, nviol = 0, executed = 0;
+	uint64_t total_ops = 0, total_events = 0, det_reruns = 0, det_mismatch = 0, nviol = 0, executed = 0, ambient_errno = 0;
 	int samples_emitted = 0;
 	Shared snap;
 	for(long i = first + worker; i < first + nruns; i += nworkers)
@@ -503,6 +507,7 @@ int sim_main(int argc, char** argv, std::vector<Engine*> engines)
 		executed++;
 		total_ops += r.nops;
 		total_events += r.nevents;
+		ambient_errno += snap.ambient_errno;
 		for(int k = 0; k < MAX_PROBES; k++)
 		{
 			probe_sum[k] += snap.probes[k];
@@ -555,7 +560,7 @@ int sim_main(int argc, char** argv, std::vector<Engine*> engines)
 			{
 				shrunk_per_class[r.v.cls]++;
 				Shrinker sh{*eng, opts, r.v.cls};
-				sh.budget  = r.outcome == "timeout" ? std::min(shrink_budget, 4) : shrink_budget;	// a hanging plan is not worth 400 re-executions
+				sh.budget  = r.outcome == "timeout" ? 0 : shrink_budget;   // a hanging plan is reported as it is: every re-execution costs a full timeout
 				Plan small = sh.shrink(plan);
 				execs	   = sh.execs;
 				fin		   = run_child(*eng, small, opts, true);
@@ -572,6 +577,11 @@ int sim_main(int argc, char** argv, std::vector<Engine*> engines)
 				pf << small.text();
 			}
 			printf("{\"t\":\"viol\",\"i\":%ld,\"seed\":\"%s\",\"cls\":%s,\"op\":%d,\"detail\":%s,\"outcome\":%s,\"hash\":\"%s\",\"plan_file\":%s,\"orig_ops\":%zu,\"shrunk_ops\":%zu,\"shrink_execs\":%d,\"tail\":%s}\n", i, hex64(rs).c_str(), jstr(fin.v.cls).c_str(), fin.v.op, jstr(fin.v.detail).c_str(), jstr(fin.outcome).c_str(), hex64(fin.hash).c_str(), jstr(plan_file).c_str(), orig_ops, shrunk_ops, execs, jstr(fin.tail).c_str());
+			if(r.outcome == "timeout")
+			{
+				printf("{\"t\":\"note\",\"msg\":\"stopping this worker after a timeout (hangs are too expensive to collect)\"}\n");
+				break;
+			}
 			if((int) nviol >= max_viol)
 			{
 				printf("{\"t\":\"note\",\"msg\":\"stopping early after %d violating runs\"}\n", max_viol);
@@ -592,7 +602,7 @@ int sim_main(int argc, char** argv, std::vector<Engine*> engines)
 			sj += (first_state ? "" : ",") + std::to_string(id);
 			first_state = false;
 		}
-	printf("{\"t\":\"sum\",\"worker\":%ld,\"executed\":%llu,\"ops\":%llu,\"events\":%llu,\"violations\":%llu,\"det_reruns\":%llu,\"det_mismatches\":%llu,\"probes\":{%s},\"metrics\":{%s},\"states\":[%s]}\n", worker, (unsigned long long) executed, (unsigned long long) total_ops, (unsigned long long) total_events, (unsigned long long) nviol, (unsigned long long) det_reruns, (unsigned long long) det_mismatch, pj.c_str(), mj.c_str(), sj.c_str());
+	printf("{\"t\":\"sum\",\"worker\":%ld,\"executed\":%llu,\"ops\":%llu,\"events\":%llu,\"violations\":%llu,\"det_reruns\":%llu,\"det_mismatches\":%llu,\"ambient_errno\":%llu,\"probes\":{%s},\"metrics\":{%s},\"states\":[%s]}\n", worker, (unsigned long long) executed, (unsigned long long) total_ops, (unsigned long long) total_events, (unsigned long long) nviol, (unsigned long long) det_reruns, (unsigned long long) det_mismatch, (unsigned long long) ambient_errno, pj.c_str(), mj.c_str(), sj.c_str());
 	return det_mismatch ? 2 : 0;
 }
 
